@@ -98,6 +98,9 @@ def generate(seed, tier):
             row = row[:-1] if rng.random() < 0.5 else row + ["a"]
         if rows and rng.random() < 0.2:
             row = list(rng.choice(rows))
+        if row and rng.random() < 0.04 and not spec["header"]:
+            # a value that is no text at all, as a row fetched from a database may hold it
+            row[rng.randrange(len(row))] = rng.choice([None, 0, False, 7])
         rows.append(row)
     if spec["header"] and rows:
         rows[0] = [field["name"].upper()[: field["width"]] for field in fields]
@@ -213,7 +216,8 @@ def execute(scenario):
     from cutplace import errors, rowio
 
     if scenario.get("with_block") and not scenario["cid"].get("props") and \
-            all(len(row) == len(scenario["cid"]["fields"]) for row in scenario["rows"]):
+            all(len(row) == len(scenario["cid"]["fields"]) and all(isinstance(cell, str) for cell in row)
+                for row in scenario["rows"]):
         # (the two known defects that need a data format property are judged in the plain flow only; rows of the
         # wrong length are a precondition violation of write_row(), which the plain flow offers one by one)
         return _execute_with_block(scenario)
@@ -228,7 +232,7 @@ def execute(scenario):
     features = ["format=" + fmt, "delimiter=" + spec["line_delimiter"]]
     skips_blanks = ["skip initial space", "true"] in spec.get("props", [])
     blank_not_allowed = ["allowed characters", "33...126"] in spec.get("props", [])
-    if skips_blanks and any(cell.startswith(" ") for row in rows for cell in row):
+    if skips_blanks and any(isinstance(cell, str) and cell.startswith(" ") for row in rows for cell in row):
         # one culprit explains whatever goes wrong with such values, so it is the whole signature
         features = ["format=delimited", "skip-initial-space-and-a-value-starting-with-a-blank"]
     target = "out.txt" if scenario.get("target") == "path" else "<stream>"
@@ -275,6 +279,12 @@ def execute(scenario):
                 if written_header + sum(1 for entry in plan if entry[1] == "header") < header:
                     plan.append((row, "header", None))
                     continue
+                if any(not isinstance(cell, str) for cell in row):
+                    # a value that is no text (None, 0, False from a database row) is rejected at its field, whatever
+                    # the field allows (a row of the wrong length for its length, as ever); no check gets to see the row
+                    plan.append((row, "err", {"kind": "cell" if len(row) == len(spec["fields"]) else "count"}))
+                    result.probe("value-that-is-no-text")
+                    break
                 item = tabular.RefReader(dict(spec, header=0), attempted + [row]).items()[-1]
                 if item[0] == "row" and target != "<stream>" and not _encodable(row, spec.get("encoding", "utf-8")):
                     # conforming, but the file's encoding cannot store it: rejected as a whole, nothing of it is
